@@ -363,6 +363,14 @@ theorem decompress_resume (r : Regs) (a b out : Array UInt8) (pos budget1 budget
       rw [hx]
       exact ⟨hBC2, hZ2, hd2.elim Or.inl fun h => Or.inr (Or.inl h)⟩
 
+/-- a suspended call leaves registers that keep the buffer discipline -/
+theorem decompress_bnd (r : Regs) (a out : Array UInt8) (pos budget flags : Nat)
+    (hb : Bnd r) (hg : badGeometry flags out.size pos = false)
+    (hs : (decompress r a out pos budget flags).status = stNeedsMoreInput ∨
+          (decompress r a out pos budget flags).status = stHasMoreOutput) :
+    Bnd (decompress r a out pos budget flags).r :=
+  (decompress_resume r a #[] out pos budget budget flags hb hg hs (Nat.le_add_left _ _)).2.2.2.2.2.1
+
 /-! ### Any number of calls -/
 
 /-- A driver's sequence of calls: each call is offered the bytes the previous call left unconsumed
@@ -506,7 +514,7 @@ theorem runCalls_last (flags pos0 : Nat) : ∀ (calls : List (Array UInt8 × Nat
 
 /-- a fresh decoder keeps the buffer discipline -/
 theorem Bnd_fresh : Bnd ({} : Regs) := by
-  refine ⟨⟨by show (0 : Nat) < 2 ^ 0; decide, ⟨fun buf m _ => ?_, fun i => ?_⟩⟩, ⟨fun h => rfl, fun h => Or.inl rfl⟩, Or.inl (by show (0 : Nat) < 8; decide)⟩
+  refine ⟨⟨by show (0 : Nat) < 2 ^ 0; decide, ⟨fun buf m _ => ?_, fun i => ?_⟩⟩, Z_of (s := sStart) rfl (fun _ => rfl) (fun _ => Or.inl rfl), Or.inl (by show (0 : Nat) < 8; decide)⟩
   · show decodeBuf { count := #[], syms := #[] } buf m ≠ .short
     unfold decodeBuf decodeBufAux
     simp
